@@ -388,7 +388,7 @@ func (e *c08Env) listUnfriendly(repo string, r *tr.Rng) {
 		var once sync.Once
 		g := &crashstore.Group{}
 		g.Hook = func(_, op, key string) {
-			if op == "get" && key == vkey {
+			if (op == "has" || op == "get" || op == "getattr") && key == vkey {
 				once.Do(func() { vstore.RemoveRaw(vkey) }) // another client deletes the label right now
 			}
 		}
